@@ -76,18 +76,27 @@ def runStore (p : Policy U) (k : StoreKind) (s : Store (Item U)) (now : Int) (id
     Store (Item U) :=
   runMixedStore k s now idx (reqs.map (fun r => (p, r)))
 
-/-- The mechanisms of `Model/CacheTTL.lean`. The answer of the remote party is the absolute expiry time it reports
-(`none` = no expiry information); the JWT finalizer issues its tokens itself, their lifetime is its `ttl`. -/
-def remaining (m : Mech) (cfg : Option Int) (now : Int) (exp : Option Int) : Option Int :=
+/-- What the remote party answers to a request of one of the mechanisms of `Model/CacheTTL.lean`: the absolute
+expiry time of the thing itself (`exp` of the introspection response / session, `expires_in` of the token, `NotAfter`
+of the key's **own** certificate `x5c[0]`; `none` = no expiry information), and for a JWK the `NotAfter` of the
+further certificates of its `x5c` chain (`x5c[1:]`, the issuing CAs; a chain of any length). -/
+structure Answer where
+  exp  : Option Int
+  more : List Int
+deriving DecidableEq, Repr
+
+/-- remaining lifetime the mechanism works with; the JWT finalizer issues its tokens itself, their lifetime is its
+`ttl`. For a JWK only the key's own certificate counts (`key.Certificates[0]`), whatever else the chain contains. -/
+def remaining (m : Mech) (cfg : Option Int) (now : Int) (a : Answer) : Option Int :=
   match m with
   | .jwtFinalizer => some (tokenLifetime cfg)
   | .remoteAuthz | .contextualizer => none
-  | _ => exp.map (· - now)
+  | _ => a.exp.map (· - now)
 
-def mechPolicy (m : Mech) (cfg : Option Int) (vl : Nat) : Policy (Option Int) where
+def mechPolicy (m : Mech) (cfg : Option Int) (vl : Nat) : Policy Answer where
   lookup := lookupEnabled m cfg
-  accept := fun now exp => acceptsFresh m vl (remaining m cfg now exp)
-  ttl := fun now exp => cacheTTL m cfg (remaining m cfg now exp)
+  accept := fun now a => acceptsFresh m vl (remaining m cfg now a) && chainValid m (a.more.map (· - now))
+  ttl := fun now a => cacheTTL m cfg (remaining m cfg now a)
 
 /-- the HTTP response cache in front of a remote endpoint -/
 def httpPolicy (dttl : Int) : Policy Exchange where
